@@ -10,6 +10,7 @@
 (*   byid = heights whose id GetBlock resolves to that block                 *)
 (*   bad  = getters that answered with a *wrong* block / id / height         *)
 (*   last = GetLastAcceptedHeight (-1 when unset)                            *)
+(* crash = a call cut short after k durable writes, then reopen + observe.   *)
 (* The monitor part of ChainIndex.tla is stepped from the logged calls; the  *)
 (* observed tables are loaded into blk / h2id / id2h and every invariant of  *)
 (* the module (the statement) is evaluated on every state.  The trace spec   *)
@@ -26,12 +27,13 @@ SeqSet(s) == {s[k] : k \in DOMAIN s}
 Ev(e)     == l <= N /\ Trace[l].ev = e /\ l' = l + 1
 T         == Trace[l]
 
-Observe ==
+ObserveRes(r) ==
   /\ blk' = SeqSet(T.byh) /\ h2id' = SeqSet(T.h2id) /\ id2h' = SeqSet(T.id2h)
-  /\ res' = T.res
+  /\ res' = r
   /\ T.bad = <<>>                                  \* no getter returned a wrong answer
   /\ SeqSet(T.byid) = SeqSet(T.byh)                \* retrievable by id <=> retrievable by height
   /\ T.last = last'
+Observe == ObserveRes(T.res)
 
 TraceInit ==
   /\ l = 2 /\ TLCSet(1, 1)
@@ -45,7 +47,16 @@ TAccept  == Ev("accept") /\ (IF T.res = "ok" THEN PAccept(T.h) ELSE UNCHANGED mo
 TSave    == Ev("save") /\ PSave(T.h) /\ Observe
 TRestart == Ev("restart") /\ PRestart(T.w) /\ Observe
 
-TraceNext == TReset \/ TAccept \/ TSave \/ TRestart
+(* crash family: the database handed to the index fails every durable write (Put / Delete / batch Write) after  *)
+(* the k-th one of this call; the index is then reopened on what reached the underlying memdb and observed.     *)
+(* The injected error itself is expected (res is not bound to it); whether the call took effect is read off the *)
+(* reopened index, and the statement's invariants are evaluated on the reopened tables.                         *)
+TCrash   == Ev("crash")
+            /\ (IF T.op = "accept" THEN PCrashAccept(T.h, T.last = T.h)
+                ELSE PCrashSave(T.h, T.h \in SeqSet(T.byh)))
+            /\ ObserveRes(T.res)         \* "ok" unless the call failed with an error that is not the injected one
+
+TraceNext == TReset \/ TAccept \/ TSave \/ TRestart \/ TCrash
 TraceSpec == TraceInit /\ [][TraceNext]_tvars
 
 HWM      == TLCSet(1, IF TLCGet(1) > l - 1 THEN TLCGet(1) ELSE l - 1)
